@@ -617,6 +617,21 @@ def r9(ctx, rule='C01.R9'):
                 names |= set(sl.field_names()) | {n for _, n in sl.upvars}
             if 'output' in names and ('path' in names or 'info' in names):
                 ok = True
+    # the other way the report file exists before the scan: the shell created it for `> report.txt` (the usage shown in the README)
+    fst = [(x, c) for x in bodies + [hb for x0 in bodies for k in x0.calls(r'^group::\w+$') for hb in [lib.body(k.path)] if hb is not None]
+           for c in x.calls(r'nix::sys::stat::fstat$|^libc::fstat|File::metadata$|AsRawFd|as_raw_fd$|^std::io::stdout$')]
+    cmp_id = False
+    for x in bodies:
+        for c in x.calls(r'PartialEq.*>::(eq|ne)$|PartialEq::(eq|ne)$'):
+            names = set()
+            for a in c.args:
+                sl = backslice(x, [a])
+                names |= set(sl.field_names()) | {n for _, n in sl.upvars}
+            if 'id' in names and any(n and 'output' in n for n in names):
+                cmp_id = True
+    ctx.check(bool(fst) and cmp_id, rule, 'group::scan_files|redirected-output-not-scanned', (fst[0][1].where() if fst else sc.where()), 'scan_files drops the file that the standard output is redirected to (compared by file identifier)',
+              'only the path given with -o is kept out of the scan: with `cd d; fclones group . --min 0 > dupes.txt` the shell creates dupes.txt before fclones starts, it stays empty until the report is '
+              'written at the very end, and the report lists dupes.txt itself as a 0 B duplicate of the empty files (or as a unique file with --unique)')
     ctx.check(ok, rule, 'group::scan_files|output-not-scanned', sc.where(), 'scan_files drops the path equal to config.output',
               'run_group creates (truncates) the report file before group_files scans the tree, and nothing keeps the scan from picking it up: with `cd d; fclones group . --min 0 -o report.txt` the '
               'report lists report.txt itself as a 0-byte duplicate of the empty files, while it is hundreds of bytes long')
